@@ -6,7 +6,8 @@
    the failed attempt had consumed). *)
 From Verif Require Import Engine EngineTables.
 From Verif Require Import Base EngineSafetyBase EngineSafetyBits EngineSafetyInv.
-From VerifStub Require Import Stubs. (* TEMP-STUB *)
+From Verif Require Import EngineSafetySmall EngineSafetyRL EngineSafetyExpand EngineSafetyDecode
+  EngineSafetyLitLen.
 From Coq Require Import List NArith ZArith Bool Lia ZifyBool ZifyNat ZifyN.
 Import ListNotations.
 Open Scope N_scope.
@@ -18,9 +19,24 @@ Definition LongCodesFit : Prop :=
     setAndExpandLitLenHuffCode d = (d1, ENone) ->
     long_groups_fit d1.
 
+(* the decode tables: entry invariants of EngineSafetyInv plus the symbol-field invariant of
+   EngineSafetyDecode *)
+Definition tabs_ok2 (t : tabs) : Prop :=
+  tabs_ok t /\ all_entries lit_short_sym_ok (litShort t).
+
+Lemma static_tabs_ok2 :
+  tabs_ok2 (mkTB static_lit_short static_lit_long static_dist_short static_dist_long).
+Proof. split; [exact static_tabs_ok|exact static_lit_short_sym_ok]. Qed.
+
+Lemma tabs_ok2_empty : tabs_ok2 (mkTB aempty aempty aempty aempty).
+Proof.
+  split; [exact tabs_ok_empty|]. cbn [litShort]. apply all_entries_empty.
+  apply lit_short_sym_okb_ok. vm_compute. reflexivity.
+Qed.
+
 (* what the header parser needs of the state *)
 Definition hdr_pre (s : inflate) : Prop :=
-  br_inv (rd s) /\ (0 <= r_len (rd s))%Z /\ clc_ok (dyn s) /\ tabs_ok (tb s).
+  br_inv (rd s) /\ (0 <= r_len (rd s))%Z /\ clc_ok (dyn s) /\ tabs_ok2 (tb s).
 
 (* everything but rd, dyn, tb, phase, bfinal, litBlockLength *)
 Definition hdr_frame (s s' : inflate) : Prop :=
@@ -119,7 +135,7 @@ Definition hdr_post (s s' : inflate) (e : ierr) : Prop :=
   (avail (rd s') <= avail (rd s))%Z /\ r_inlen (rd s') <= r_inlen (rd s) /\
   clc_ok (dyn s') /\
   (e = EEndInput -> r_inlen (rd s') = 0 /\ tb s' = tb s) /\
-  (e = ENone -> (0 <= r_len (rd s'))%Z /\ tabs_ok (tb s')) /\
+  (e = ENone -> (0 <= r_len (rd s'))%Z /\ tabs_ok2 (tb s')) /\
   hdr_frame s s'.
 
 Lemma hc_len_setcode : forall h c, h < 4294967296 ->
@@ -165,7 +181,7 @@ Proof.
   sproj.
   destruct (r_len b1 <? 14)%Z eqn:E14.
   { (* not enough bits *)
-    injection H as Hs He; subst s' e. split; [|intros Hc; discriminate]. unfold hdr_post. sproj.
+    apply pair_equal_spec in H; destruct H as [Hs He]; subst s' e. split; [|intros Hc; discriminate]. unfold hdr_post. sproj.
     destruct L2 as (L2a & L2b).
     split; [right; left; reflexivity|]. split; [exact L2a|]. split; [lia|]. split; [lia|].
     split; [exact L5|]. split; [exact Hclc0|].
@@ -188,15 +204,15 @@ Proof.
   assert (Hav4 : (avail b4 <= avail (rd s))%Z) by lia.
   assert (Hin4 : r_inlen b4 <= r_inlen (rd s)) by lia.
   destruct ((29 <? hlit) || (29 <? hdist) || (15 <? hclen)) eqn:Echk.
-  { injection H as Hs He; subst s' e. split; [|intros Hc; discriminate]. unfold hdr_post. sproj.
+  { apply pair_equal_spec in H; destruct H as [Hs He]; subst s' e. split; [|intros Hc; discriminate]. unfold hdr_post. sproj.
     split; [right; right; reflexivity|]. split; [exact (proj1 Hb4)|]. split; [lia|]. split; [exact Hav4|].
     split; [exact Hin4|]. split; [exact Hclc0|]. split; [intros Hc; discriminate|].
     split; [intros Hc; discriminate|exact Hfr0]. }
   assert (Hhlit : hlit <= 29) by lia. assert (Hhdist : hdist <= 29) by lia. assert (Hhclen : hclen <= 15) by lia.
   set (s2 := set_rd (set_rd s0 b1) b4) in *.
   destruct (codeLenCodes s2 hclen) as [s3 e3] eqn:ECL.
-  pose proof (codeLenCodes_spec s2 hclen s3 e3 ECL Hhclen) as CL.
-  specialize (CL Hb4 Hclc0).
+  pose proof (codeLenCodes_spec_v2 s2 hclen s3 e3 ECL Hhclen) as CL.
+  specialize (CL Hb4 Hclc0 Hb4len).
   destruct CL as (CLe & CLclc & CLbr & CLok & CLend & CLav & CLin & CLlo & CLso & CLh & CLcl & CLlc & CLdc & CLex & CLnc & CLlh).
   assert (Hfr3 : hdr_frame s s3).
   { eapply hdr_frame_trans; [exact Hfr0|]. apply same_outer_frame in CLso. exact CLso. }
@@ -204,11 +220,11 @@ Proof.
   assert (Hrd2 : rd s2 = b4) by reflexivity. rewrite Hrd2 in CLav, CLin.
   destruct e3; try (exfalso; destruct CLe as [Hc|[Hc|Hc]]; discriminate).
   2:{ (* EEndInput from codeLenCodes *)
-    injection H as Hs He; subst s' e. split; [|intros Hc; discriminate]. unfold hdr_post.
+    apply pair_equal_spec in H; destruct H as [Hs He]; subst s' e. split; [|intros Hc; discriminate]. unfold hdr_post.
     split; [right; left; reflexivity|]. split; [exact CLbr|]. split; [lia|]. split; [lia|].
     split; [lia|]. split; [exact CLclc|]. split; [intros _; split; [apply CLend; reflexivity|exact Htb3]|].
     split; [intros Hc; discriminate|exact Hfr3]. }
-  2:{ injection H as Hs He; subst s' e. split; [|intros Hc; discriminate]. unfold hdr_post.
+  2:{ apply pair_equal_spec in H; destruct H as [Hs He]; subst s' e. split; [|intros Hc; discriminate]. unfold hdr_post.
     split; [right; right; reflexivity|]. split; [exact CLbr|]. split; [lia|]. split; [lia|].
     split; [lia|]. split; [exact CLclc|]. split; [intros Hc; discriminate|].
     split; [intros Hc; discriminate|exact Hfr3]. }
@@ -223,17 +239,17 @@ Proof.
   assert (Htb4 : tb s4 = tb s) by (destruct RLso as (_&_&Ht&_); congruence).
   assert (Hclc4 : clc_ok (dyn s4)) by (unfold clc_ok in *; rewrite RLcs; exact CLclc).
   destruct e4; try (exfalso; destruct RLe as [Hc|[Hc|Hc]]; discriminate).
-  2:{ injection H as Hs He; subst s' e. split; [|intros Hc; discriminate]. unfold hdr_post.
+  2:{ apply pair_equal_spec in H; destruct H as [Hs He]; subst s' e. split; [|intros Hc; discriminate]. unfold hdr_post.
     split; [right; left; reflexivity|]. split; [exact RLbr|]. split; [lia|]. split; [lia|].
     split; [lia|]. split; [exact Hclc4|]. split; [intros _; split; [apply RLend; reflexivity|exact Htb4]|].
     split; [intros Hc; discriminate|exact Hfr4]. }
-  2:{ injection H as Hs He; subst s' e. split; [|intros Hc; discriminate]. unfold hdr_post.
+  2:{ apply pair_equal_spec in H; destruct H as [Hs He]; subst s' e. split; [|intros Hc; discriminate]. unfold hdr_post.
     split; [right; right; reflexivity|]. split; [exact RLbr|]. split; [lia|]. split; [lia|].
     split; [lia|]. split; [exact Hclc4|]. split; [intros Hc; discriminate|].
     split; [intros Hc; discriminate|exact Hfr4]. }
   specialize (RLpost eq_refl). destruct RLpost as (RPlit & RPdist).
   destruct (r_len (rd s4) <? 0)%Z eqn:Eneg.
-  { injection H as Hs He; subst s' e. split; [|intros Hc; discriminate]. unfold hdr_post.
+  { apply pair_equal_spec in H; destruct H as [Hs He]; subst s' e. split; [|intros Hc; discriminate]. unfold hdr_post.
     split; [right; left; reflexivity|]. split; [exact RLbr|]. split; [lia|]. split; [lia|].
     split; [lia|]. split; [exact Hclc4|].
     split; [intros _; split; [destruct RLbr as (_&_&R3); apply R3; lia|exact Htb4]|].
@@ -245,7 +261,7 @@ Proof.
   destruct (setCodes_spec h4 litLen distLen dc4 huff bad ESC RD1) as (SC1 & SC2).
   assert (Hclc5 : forall hf, clc_ok (set_dyn_huff (dyn s4) hf)) by (intros hf; exact Hclc4).
   destruct bad.
-  { injection H as Hs He; subst s' e. split; [|intros Hc; discriminate]. unfold hdr_post. sproj.
+  { apply pair_equal_spec in H; destruct H as [Hs He]; subst s' e. split; [|intros Hc; discriminate]. unfold hdr_post. sproj.
     split; [right; right; reflexivity|]. split; [exact RLbr|]. split; [lia|]. split; [lia|].
     split; [lia|]. split; [apply Hclc5|]. split; [intros Hc; discriminate|].
     split; [intros Hc; discriminate|exact Hfr4]. }
@@ -261,7 +277,7 @@ Proof.
       replace (0 + N.of_nat k <? distLen) with true by (unfold distLen; lia).
       rewrite SC2. replace (litLen + (0 + N.of_nat k)) with (286 + N.of_nat k) by (unfold litLen; lia). reflexivity.
     - exact RD3. }
-  destruct Htb as (T1 & T2 & T3 & T4).
+  destruct Htb as ((T1 & T2 & T3 & T4) & T5).
   rewrite Htb4 in H.
   destruct (gen_small false (distShort (tb s)) (distLong (tb s)) codes distLen dc4 distLen)
     as [[[dsh dlg] codes'] gerr] eqn:EGS.
@@ -276,7 +292,7 @@ Proof.
     - split; [apply SC1|apply SC2]. }
   destruct (negb (ierr_eqb gerr ENone)) eqn:Egerr.
   { assert (gerr = EInvalidBlock) by (destruct GS1 as [->| ->]; [discriminate|reflexivity]). subst gerr.
-    injection H as Hs He; subst s' e. split; [|intros Hc; discriminate]. unfold hdr_post. sproj.
+    apply pair_equal_spec in H; destruct H as [Hs He]; subst s' e. split; [|intros Hc; discriminate]. unfold hdr_post. sproj.
     split; [right; right; reflexivity|]. split; [exact RLbr|]. split; [lia|]. split; [lia|].
     split; [lia|]. split; [exact Hclc4|]. split; [intros Hc; discriminate|].
     split; [intros Hc; discriminate|exact Hfr4]. }
@@ -292,7 +308,7 @@ Proof.
   assert (Hclc6 : clc_ok d6).
   { unfold clc_ok. rewrite SE3. exact Hclc4. }
   destruct e6; try (exfalso; destruct SE1 as [Hc|Hc]; discriminate).
-  2:{ injection H as Hs He; subst s' e. split; [|intros Hc; discriminate]. unfold hdr_post. sproj.
+  2:{ apply pair_equal_spec in H; destruct H as [Hs He]; subst s' e. split; [|intros Hc; discriminate]. unfold hdr_post. sproj.
     split; [right; right; reflexivity|]. split; [exact RLbr|]. split; [lia|]. split; [lia|].
     split; [lia|]. split; [exact Hclc6|]. split; [intros Hc; discriminate|].
     split; [intros Hc; discriminate|exact Hfr4]. }
@@ -301,11 +317,13 @@ Proof.
   destruct (genForLitLen (litShort (tb s)) (litLong (tb s)) d6 multisym) as [[[lsh llg] d7] e7] eqn:EGL.
   destruct (genForLitLen_spec _ _ _ _ _ _ _ _ EGL SE2 Hfit T1 T2) as (GL1 & GL2 & GL3 & GL4 & GL5).
   subst e7.
-  injection H as Hs He; subst s' e. split; [|intros _; reflexivity]. unfold hdr_post. sproj.
+  apply pair_equal_spec in H; destruct H as [Hs He]; subst s' e. split; [|intros _; reflexivity]. unfold hdr_post. sproj.
   split; [left; reflexivity|]. split; [exact RLbr|]. split; [lia|]. split; [lia|].
   split; [lia|]. split; [unfold clc_ok; rewrite GL4; exact Hclc6|]. split; [intros Hc; discriminate|].
   split; [|exact Hfr4].
-  intros _. split; [lia|]. unfold tabs_ok; sproj. split; [exact GL2|]. split; [exact GL3|]. split; assumption.
+  intros _. split; [lia|]. split.
+  - unfold tabs_ok; sproj. split; [exact GL2|]. split; [exact GL3|]. split; assumption.
+  - sproj. exact (genForLitLen_sym_ok _ _ _ _ _ _ _ _ EGL SE2 Hfit T5).
 Qed.
 
 Lemma u8_small : forall x, x < 256 -> u8 x = x.
@@ -323,7 +341,7 @@ Theorem prepareForLitBlock_spec : forall s s' e,
 Proof.
   intros s s' e H Hbr Hlen. unfold prepareForLitBlock, loadBits in H.
   destruct (load_lt57_spec (rd s) Hbr) as (b1 & L1 & L2 & L3 & L4 & L5). rewrite L1 in H.
-  sproj. destruct L2 as (L2a & L2b). pose proof L2a as (I1 & I2 & I3).
+  sproj. destruct L2 as (L2a & L2b). pose proof L2a as (I1 & I2 & I3). unfold avail in L3.
   destruct (r_len b1 <? 0)%Z eqn:Eneg; [lia|].
   set (bl := Z.to_N (r_len b1)) in *.
   assert (Hbl : Z.of_N bl = r_len b1) by (unfold bl; lia).
@@ -332,8 +350,8 @@ Proof.
   rewrite (u8_small (bl / 8)) in H by lia.
   assert (Hfr : forall b, hdr_frame s (set_rd s b)) by (intros b; unfold hdr_frame; repeat split; reflexivity).
   destruct (bl / 8 <? 4) eqn:E4.
-  { injection H as Hs He; subst s' e. sproj.
-    split; [right; left; reflexivity|]. split; [exact L2a|]. split; [lia|]. split; [lia|]. split; [lia|].
+  { apply pair_equal_spec in H; destruct H as [Hs He]; subst s' e. sproj.
+    split; [right; left; reflexivity|]. split; [exact L2a|]. split; [lia|]. split; [unfold avail; lia|]. split; [lia|].
     split; [intros _; destruct L2b as [L2b|L2b]; [exact L2b|lia]|].
     split; [intros Hc; discriminate|]. split; [reflexivity|]. split; [reflexivity|]. split; [reflexivity|apply Hfr]. }
   set (by8 := bl / 8) in *.
@@ -341,13 +359,13 @@ Proof.
   { replace (by8 * 8 - 32) with ((by8 - 4) * 8) by lia. apply N.mod_mul. lia. }
   destruct (negb (N.land (N.shiftr (r_bits b1) (bl mod 8)) 65535 =?
                   65535 - N.land (N.shiftr (N.shiftr (r_bits b1) (bl mod 8)) 16) 65535)) eqn:Elen.
-  { injection H as Hs He; subst s' e. sproj. unfold br_inv, avail; cbn [r_len r_in r_inlen].
+  { apply pair_equal_spec in H; destruct H as [Hs He]; subst s' e. sproj. unfold br_inv, avail; cbn [r_len r_in r_inlen].
     split; [right; right; reflexivity|]. split; [split; [exact I1|split; [lia|intros; lia]]|].
     split; [lia|]. split; [lia|]. split; [lia|]. split; [intros Hc; discriminate|].
     split; [intros Hc; discriminate|]. split; [reflexivity|]. split; [reflexivity|]. split; [reflexivity|].
     unfold hdr_frame; repeat split; reflexivity. }
   rewrite Hrest in H. cbn [N.eqb] in H. cbv beta iota zeta in H.
-  injection H as Hs He; subst s' e. sproj. unfold br_inv, avail; cbn [r_len r_in r_inlen].
+  apply pair_equal_spec in H; destruct H as [Hs He]; subst s' e. sproj. unfold br_inv, avail; cbn [r_len r_in r_inlen].
   split; [left; reflexivity|]. split; [split; [exact I1|split; [lia|intros; lia]]|].
   split; [lia|]. split; [lia|]. split; [lia|]. split; [intros Hc; discriminate|].
   split.
@@ -355,4 +373,278 @@ Proof.
     replace (Z.of_N (by8 * 8 - 32)) with ((Z.of_N by8 - 4) * 8)%Z by lia. apply Z.mod_mul. lia. }
   split; [reflexivity|]. split; [reflexivity|]. split; [reflexivity|].
   unfold hdr_frame; repeat split; reflexivity.
+Qed.
+
+Theorem tryDecodeHeader_spec : forall s s' e,
+  LongCodesFit ->
+  tryDecodeHeader s = (s', e) -> hdr_pre s ->
+  hdr_post s s' e /\
+  (e = ENone -> (phase s' = phaseLitBlock /\ (r_len (rd s') mod 8 = 0)%Z) \/
+                phase s' = phaseHeaderDecoded) /\
+  (e = ENone -> (avail (rd s') + 3 <= avail (rd s))%Z).
+Proof.
+  intros s s' e HLF H (Hbr & Hlen & Hclc & Htb).
+  unfold tryDecodeHeader, readBits, loadBits in H.
+  destruct (load_lt57_spec (rd s) Hbr) as (b1 & L1 & L2 & L3 & L4 & L5). rewrite L1 in H.
+  sproj. rewrite (next_bits_eq b1 1) in H. cbv beta iota zeta in H. sproj.
+  set (bf := N.land (r_bits b1) (N.ones 1)) in *.
+  set (b2 := br_drop b1 1) in *.
+  destruct (br_drop_ok 57 b1 1 L2 ltac:(lia)) as (D1 & D1a & D1b & D1c & D1d).
+  fold b2 in D1, D1a, D1b, D1c, D1d.
+  destruct (load_lt57_spec b2 (proj1 D1)) as (b3 & M1 & M2 & M3 & M4 & M5). rewrite M1 in H.
+  assert (M2' : br_ok 56 b3) by (apply (br_ok_weaken 57); [lia|exact M2]).
+  sproj. rewrite (next_bits_eq b3 2) in H. cbv beta iota zeta in H. sproj.
+  set (btype := N.land (r_bits b3) (N.ones 2)) in *.
+  set (b4 := br_drop b3 2) in *.
+  destruct (br_drop_ok 56 b3 2 M2' ltac:(lia)) as (E1 & E1a & E1b & E1c & E1d).
+  fold b4 in E1, E1a, E1b, E1c, E1d.
+  set (s4 := set_rd (set_bfinal (set_rd (set_rd s b1) b2) bf) b4) in *.
+  assert (Hfr4 : hdr_frame s s4) by (unfold hdr_frame; repeat split; reflexivity).
+  assert (Hav4 : (avail b4 = avail (rd s) - 3)%Z) by lia.
+  assert (Hin4 : r_inlen b4 <= r_inlen (rd s)) by lia.
+  assert (Hbr4 : br_inv b4) by exact (proj1 E1).
+  assert (Hlo4 : (-3 <= r_len b4)%Z) by lia.
+  destruct (r_len b4 <? 0)%Z eqn:Eneg.
+  { apply pair_equal_spec in H; destruct H as [Hs He]; subst s' e.
+    split; [|split; intros Hc; discriminate]. unfold hdr_post. unfold s4; sproj.
+    split; [right; left; reflexivity|]. split; [exact Hbr4|]. split; [lia|]. split; [lia|].
+    split; [exact Hin4|]. split; [exact Hclc|].
+    split; [intros _; split; [destruct Hbr4 as (_&_&R3); apply R3; lia|reflexivity]|].
+    split; [intros Hc; discriminate|exact Hfr4]. }
+  destruct (btype =? 0) eqn:Ebt0.
+  { (* stored block *)
+    destruct (prepareForLitBlock_spec s4 s' e H) as (P1 & P2 & P3 & P4 & P5 & P6 & P7 & P8 & P9 & P10 & P11);
+      [exact Hbr4|unfold s4; sproj; lia|].
+    unfold s4 in P4, P5, P8, P9; sproj.
+    split; [|split].
+    - unfold hdr_post. split; [exact P1|]. split; [exact P2|]. split; [lia|]. split; [lia|]. split; [lia|].
+      split; [unfold clc_ok; rewrite P9; exact Hclc|].
+      split; [intros He; split; [apply P6; exact He|exact P8]|].
+      split; [intros He; split; [exact P3|rewrite P8; exact Htb]|].
+      eapply hdr_frame_trans; [exact Hfr4|exact P11].
+    - intros He. left. destruct (P7 He) as (Q1 & Q2 & Q3). split; assumption.
+    - intros He. destruct (P7 He) as (Q1 & Q2 & Q3). unfold s4 in Q3; sproj. lia. }
+  destruct (btype =? 1) eqn:Ebt1.
+  { (* fixed Huffman codes *)
+    apply pair_equal_spec in H; destruct H as [Hs He]; subst s' e.
+    unfold setupStaticHeader, s4; sproj.
+    split; [|split].
+    - unfold hdr_post; sproj. split; [left; reflexivity|]. split; [exact Hbr4|]. split; [lia|].
+      split; [lia|]. split; [exact Hin4|]. split; [exact Hclc|]. split; [intros Hc; discriminate|].
+      split; [intros _; split; [lia|exact static_tabs_ok2]|].
+      unfold hdr_frame; repeat split; reflexivity.
+    - intros _. right. reflexivity.
+    - intros _. lia. }
+  destruct (btype =? 2) eqn:Ebt2.
+  { (* dynamic Huffman codes *)
+    destruct (setupDynamicHeader_spec s4 s' e HLF H) as (S1 & S2).
+    { unfold hdr_pre, s4; sproj. split; [exact Hbr4|]. split; [lia|]. split; [exact Hclc|exact Htb]. }
+    destruct S1 as (Q1 & Q2 & Q3 & Q4 & Q5 & Q6 & Q7 & Q8 & Q9).
+    unfold s4 in Q4, Q5, Q7; sproj.
+    split; [|split].
+    - unfold hdr_post. split; [exact Q1|]. split; [exact Q2|]. split; [exact Q3|]. split; [lia|].
+      split; [lia|]. split; [exact Q6|]. split; [exact Q7|]. split; [exact Q8|].
+      eapply hdr_frame_trans; [exact Hfr4|exact Q9].
+    - intros He. right. apply S2, He.
+    - intros _. lia. }
+  apply pair_equal_spec in H; destruct H as [Hs He]; subst s' e.
+  split; [|split; intros Hc; discriminate]. unfold hdr_post, s4; sproj.
+  split; [right; right; reflexivity|]. split; [exact Hbr4|]. split; [lia|]. split; [lia|].
+  split; [exact Hin4|]. split; [exact Hclc|]. split; [intros Hc; discriminate|].
+  split; [intros Hc; discriminate|exact Hfr4].
+Qed.
+
+(* ---------------------------------------------------------------- readHeader and the staging buffer *)
+(* "a header attempt that restarts from the staged bytes plus X leaves at most the bits of X" *)
+Definition staged_ok (s : inflate) : Prop :=
+  forall s' X, dyn s' = dyn s -> tb s' = tb s ->
+    rd s' = mkBR (r_bits (rd s)) (r_len (rd s)) (headerBuffer s ++ X)
+                 (headerBuffered s + N.of_nat (length X)) ->
+    (avail (rd (fst (tryDecodeHeader s'))) <= 8 * Z.of_nat (length X))%Z.
+
+(* Hypothesis 2: if a header attempt runs out of input, then any attempt that restarts with the same
+   bit buffer on a prefix of that input followed by more bytes X (and with the tables the failed
+   attempt left behind) consumes the whole prefix: the unread bits all belong to X. *)
+Definition HeaderRestartMonotone : Prop :=
+  forall s s2, hdr_pre s -> tryDecodeHeader s = (s2, EEndInput) ->
+  forall n X s', dyn s' = dyn s2 -> tb s' = tb s2 ->
+    rd s' = mkBR (r_bits (rd s)) (r_len (rd s)) (firstn n (r_in (rd s)) ++ X)
+                 (N.of_nat (length (firstn n (r_in (rd s)))) + N.of_nat (length X)) ->
+    (avail (rd (fst (tryDecodeHeader s'))) <= 8 * Z.of_nat (length X))%Z.
+
+Definition inf_inv (s : inflate) : Prop :=
+  br_inv (rd s) /\ (0 <= r_len (rd s))%Z /\ clc_ok (dyn s) /\ tabs_ok2 (tb s) /\
+  headerBuffered s = N.of_nat (length (headerBuffer s)) /\ headerBuffered s <= 328 /\
+  (phase s = phaseDecodingHeader -> staged_ok s) /\
+  (phase s <> phaseDecodingHeader -> headerBuffered s = 0) /\
+  (phase s = phaseLitBlock -> (r_len (rd s) mod 8 = 0)%Z).
+
+(* bytes of the current input that are still unread or held in the bit buffer *)
+Definition owed (s : inflate) : Z := (Z.of_N (r_inlen (rd s)) + r_len (rd s) / 8)%Z.
+(* decreasing measure of the block loop *)
+Definition hmeasure (s : inflate) : Z := (avail (rd s) + 8 * Z.of_N (headerBuffered s))%Z.
+
+Theorem readHeader_spec : forall s s' e,
+  LongCodesFit -> HeaderRestartMonotone ->
+  readHeader s = (s', e) -> inf_inv s ->
+  (e = ENone \/ e = EEndInput \/ e = EInvalidBlock) /\
+  (e <> EInvalidBlock -> inf_inv s' /\ (owed s' <= owed s)%Z) /\
+  (e = ENone -> (phase s' = phaseLitBlock \/ phase s' = phaseHeaderDecoded) /\
+                (hmeasure s' + 3 <= hmeasure s)%Z) /\
+  (e = EEndInput -> r_inlen (rd s') = 0 /\ phase s' = phaseDecodingHeader) /\
+  r_inlen (rd s') <= r_inlen (rd s) /\ (-80 <= r_len (rd s'))%Z /\ (r_len (rd s') <= 64)%Z /\
+  inputNil s' = inputNil s /\ ov s' = ov s /\ roffset s' = roffset s.
+Proof.
+  intros s s' e HLF HRM H (Ibr & Ilen & Iclc & Itb & Ihb & Ihb2 & Istg & Inst & Ilit).
+  unfold readHeader in H.
+  set (b0 := rd s) in *.
+  set (staged := phase s =? phaseDecodingHeader) in *.
+  set (hb := headerBuffered s) in *.
+  set (copySize := N.min (maxHdrSize - hb) (r_inlen b0)) in *.
+  set (s1 := if staged
+             then set_rd s (br_set_in b0 (headerBuffer s ++ firstn (N.to_nat copySize) (r_in b0)) (copySize + hb))
+             else s) in *.
+  destruct Ibr as (B1 & B2 & B3).
+  assert (Hcs : copySize <= r_inlen b0) by (unfold copySize; lia).
+  assert (Hcs2 : copySize + hb <= 328) by (unfold copySize, maxHdrSize; lia).
+  assert (Hfl : length (firstn (N.to_nat copySize) (r_in b0)) = N.to_nat copySize).
+  { rewrite firstn_length. lia. }
+  assert (Hpre1 : hdr_pre s1).
+  { unfold hdr_pre, s1. destruct staged.
+    - sproj. split; [|split; [exact Ilen|split; [exact Iclc|exact Itb]]].
+      unfold br_inv; cbn [r_in r_inlen r_len br_set_in]. rewrite app_length, Hfl. split; [lia|]. split; [exact B2|intros; lia].
+    - split; [exact (conj B1 (conj B2 B3))|]. split; [exact Ilen|]. split; [exact Iclc|exact Itb]. }
+  destruct (tryDecodeHeader s1) as [s2 err] eqn:ETD.
+  destruct (tryDecodeHeader_spec s1 s2 err HLF ETD Hpre1) as (HP & HPph & HPav).
+  destruct HP as (P1 & P2 & P3 & P4 & P5 & P6 & P7 & P8 & P9).
+  destruct P2 as (R1 & R2 & R3).
+  (* the bits and the tables of s1 *)
+  assert (Hs1bits : r_bits (rd s1) = r_bits b0 /\ r_len (rd s1) = r_len b0 /\ dyn s1 = dyn s /\ tb s1 = tb s /\
+                    inputNil s1 = inputNil s /\ ov s1 = ov s /\ roffset s1 = roffset s).
+  { unfold s1. destruct staged; sproj; repeat split; reflexivity. }
+  destruct Hs1bits as (S1a & S1b & S1c & S1d & S1e & S1f & S1g).
+  destruct P9 as (F1 & F2 & F3 & F4 & F5).
+  (* the staged case: at most copySize bytes are left *)
+  assert (Hleft : staged = true -> r_inlen (rd s2) <= copySize /\
+                                   (0 <= r_len (rd s2) -> r_len (rd s2) <= 8 * (Z.of_N copySize - Z.of_N (r_inlen (rd s2))))%Z).
+  { intros Hst. assert (Hph : phase s = phaseDecodingHeader) by (unfold staged in Hst; lia).
+    pose proof (Istg Hph s1 (firstn (N.to_nat copySize) (r_in b0))) as Hso.
+    rewrite ETD in Hso. cbn [fst] in Hso. rewrite Hfl in Hso.
+    assert (Hrd1 : rd s1 = mkBR (r_bits (rd s)) (r_len (rd s)) (headerBuffer s ++ firstn (N.to_nat copySize) (r_in b0))
+                                (headerBuffered s + N.of_nat (N.to_nat copySize))).
+    { unfold s1. rewrite Hst. sproj. fold b0. fold hb. unfold br_set_in. f_equal. lia. }
+    specialize (Hso S1c S1d Hrd1). unfold avail in Hso.
+    destruct (Z.ltb_spec (r_len (rd s2)) 0) as [Hn|Hn].
+    - rewrite (R3 Hn). split; [lia|]. intros; lia.
+    - split; [lia|]. intros _. lia. }
+  set (read := (Z.of_N (copySize + hb) - Z.of_N (r_inlen (rd s2)) - Z.of_N hb)%Z) in *.
+  assert (Hnp : (staged && ((read <? 0)%Z || (Z.of_N (r_inlen b0) <? read)%Z)) = false).
+  { destruct staged; [|reflexivity]. destruct (Hleft eq_refl) as (Hl1 & _). unfold read. cbn [andb]. lia. }
+  assert (Herr : err <> EPanic /\ err <> EFuel) by (destruct P1 as [->|[->| ->]]; split; discriminate).
+  destruct err; try (exfalso; destruct P1 as [Hc|[Hc|Hc]]; discriminate); rewrite Hnp in H.
+  - (* ENone *)
+    apply pair_equal_spec in H; destruct H as [Hs He]; subst s' e.
+    destruct (P8 eq_refl) as (Q1 & Q2).
+    split; [left; reflexivity|].
+    set (s3 := if staged then set_rd s2 (br_set_in (rd s2) (skipn (Z.to_nat read) (r_in b0)) (r_inlen b0 - Z.to_N read)) else s2).
+    assert (Hs3 : br_inv (rd s3) /\ r_len (rd s3) = r_len (rd s2) /\ phase s3 = phase s2 /\ dyn s3 = dyn s2 /\
+                  tb s3 = tb s2 /\ inputNil s3 = inputNil s2 /\ ov s3 = ov s2 /\ roffset s3 = roffset s2 /\
+                  (Z.of_N (r_inlen (rd s3)) + r_len (rd s2) / 8 <= owed s)%Z /\
+                  (avail (rd s3) + 3 <= hmeasure s)%Z /\ r_inlen (rd s3) <= r_inlen b0).
+    { unfold s3. destruct staged eqn:Est.
+      - destruct (Hleft eq_refl) as (Hl1 & Hl2). specialize (Hl2 Q1). sproj.
+        assert (Hread : read = (Z.of_N copySize - Z.of_N (r_inlen (rd s2)))%Z) by (unfold read; lia).
+        split; [unfold br_inv; cbn [br_set_in r_bits r_in r_inlen r_len]; rewrite skipn_length; split; [lia|split; [exact R2|intros; lia]]|].
+        repeat (split; [reflexivity|]).
+        specialize (HPav eq_refl).
+        assert (Hav1 : avail (rd s1) = (8 * Z.of_N (copySize + hb) + r_len b0)%Z).
+        { unfold s1; sproj. unfold avail; cbn [br_set_in r_bits r_in r_inlen r_len]. reflexivity. }
+        unfold owed, hmeasure, avail in *. cbn [br_set_in r_bits r_in r_inlen r_len]. fold b0. fold hb.
+        split; [|split].
+        + assert (r_len (rd s2) / 8 <= read)%Z by (apply Z.div_le_upper_bound; lia).
+          assert (0 <= r_len b0 / 8)%Z by (apply Z.div_pos; lia). lia.
+        + lia.
+        + lia.
+      - assert (Hs1 : s1 = s) by reflexivity.
+        split; [exact (conj R1 (conj R2 R3))|]. repeat (split; [reflexivity|]).
+        specialize (HPav eq_refl). rewrite Hs1 in HPav, P4, P5.
+        assert (Hhb0 : hb = 0) by (apply Inst; unfold staged in Est; lia).
+        unfold owed, hmeasure, avail in *. fold b0. fold hb. rewrite Hhb0.
+        fold b0 in HPav, P4, P5. split; [|split; [lia|lia]].
+        assert (8 * Z.of_N (r_inlen (rd s2)) + 8 * (r_len (rd s2) / 8) <= 8 * Z.of_N (r_inlen b0) + 8 * (r_len b0 / 8))%Z; [|lia].
+        pose proof (Z.mul_div_le (r_len (rd s2)) 8 ltac:(lia)).
+        pose proof (Z.mod_pos_bound (r_len b0) 8 ltac:(lia)).
+        pose proof (Z.div_mod (r_len b0) 8 ltac:(lia)).
+        pose proof (Z.mod_pos_bound (r_len (rd s2)) 8 ltac:(lia)).
+        pose proof (Z.div_mod (r_len (rd s2)) 8 ltac:(lia)). lia. }
+    destruct Hs3 as (T1 & T2 & T3 & T4 & T5 & T6 & T7 & T8 & T9 & T10 & T11).
+    fold s3. sproj.
+    assert (Hph2 : phase s2 = phaseLitBlock \/ phase s2 = phaseHeaderDecoded).
+    { destruct (HPph eq_refl) as [[A _]|A]; [left|right]; exact A. }
+    split.
+    { intros _. split.
+      - unfold inf_inv; sproj. split; [exact T1|]. split; [lia|]. split; [rewrite T4; exact P6|].
+        split; [rewrite T5; exact Q2|]. split; [reflexivity|]. split; [lia|].
+        split; [intros Hc; rewrite T3 in Hc; unfold phaseLitBlock, phaseHeaderDecoded, phaseDecodingHeader in *; lia|].
+        split; [intros _; reflexivity|].
+        intros Hc. rewrite T3 in Hc. rewrite T2.
+        destruct (HPph eq_refl) as [[_ A]|A]; [exact A|].
+        unfold phaseLitBlock, phaseHeaderDecoded in *; lia.
+      - unfold owed; sproj. rewrite T2. exact T9. }
+    split.
+    { intros _. split; [rewrite T3; exact Hph2|]. unfold hmeasure at 1; sproj. lia. }
+    split; [intros Hc; discriminate|].
+    split; [exact T11|]. split; [lia|]. split; [lia|].
+    split; [congruence|]. split; [congruence|congruence].
+  - (* EEndInput *)
+    apply pair_equal_spec in H; destruct H as [Hs He]; subst s' e.
+    destruct (P7 eq_refl) as (Q1 & Q2).
+    split; [right; left; reflexivity|].
+    sproj. fold copySize.
+    split.
+    { intros _. split.
+      - unfold inf_inv; sproj.
+        split; [unfold br_inv; cbn [br_set_in r_bits r_in r_inlen r_len length]; split; [reflexivity|split; [exact B2|intros; lia]]|].
+        split; [exact Ilen|].
+        assert (Hd : forall x, dyn (if staged then set_rd s2 x else s2) = dyn s2) by (intros; destruct staged; reflexivity).
+        assert (Ht : forall x, tb (if staged then set_rd s2 x else s2) = tb s2) by (intros; destruct staged; reflexivity).
+        split; [rewrite Hd; exact P6|]. split; [rewrite Ht, Q2, S1d; exact Itb|].
+        split; [rewrite app_length, Hfl; lia|]. split; [lia|].
+        split; [|split; [intros Hc; contradiction|intros Hc; unfold phaseDecodingHeader, phaseLitBlock in Hc; discriminate]].
+        intros _. unfold staged_ok; sproj. intros s'' X Hd'' Ht'' Hr''.
+        rewrite Hd in Hd''. rewrite Ht in Ht''.
+        destruct staged eqn:Est.
+        + (* the failed attempt ran on headerBuffer ++ firstn copySize in0 *)
+          apply (HRM s1 s2 Hpre1 ETD (length (r_in (rd s1))) X s'' Hd'' Ht'').
+          rewrite firstn_all. rewrite Hr''. unfold s1; sproj. unfold br_set_in; cbn [r_bits r_len r_in r_inlen]. f_equal.
+          rewrite app_length, Hfl. lia.
+        + assert (Hhb0 : hb = 0) by (apply Inst; unfold staged in Est; lia).
+          assert (Hhbl : headerBuffer s = []).
+          { destruct (headerBuffer s); [reflexivity|]. fold hb in Ihb. rewrite Hhb0 in Ihb. cbn [length] in Ihb. lia. }
+          apply (HRM s1 s2 Hpre1 ETD (N.to_nat copySize) X s'' Hd'' Ht'').
+          rewrite Hr''. unfold s1; sproj. rewrite Hhbl. cbn [app]. fold b0. f_equal.
+          rewrite Hfl. lia.
+      - unfold owed; sproj. fold b0.
+        assert (0 <= Z.of_N (r_inlen b0))%Z by lia. lia. }
+    split; [intros Hc; discriminate|].
+    split; [intros _; split; reflexivity|].
+    split; [lia|]. split; [lia|]. split; [exact B2|].
+    assert (Hi : forall x, inputNil (if staged then set_rd s2 x else s2) = inputNil s2) by (intros; destruct staged; reflexivity).
+    assert (Ho : forall x, ov (if staged then set_rd s2 x else s2) = ov s2) by (intros; destruct staged; reflexivity).
+    assert (Hr : forall x, roffset (if staged then set_rd s2 x else s2) = roffset s2) by (intros; destruct staged; reflexivity).
+    rewrite Hi, Ho, Hr. split; [congruence|]. split; congruence.
+  - (* EInvalidBlock *)
+    apply pair_equal_spec in H; destruct H as [Hs He]; subst s' e.
+    split; [right; right; reflexivity|].
+    split; [intros Hc; contradiction|]. split; [intros Hc; discriminate|]. split; [intros Hc; discriminate|].
+    sproj.
+    assert (Hin : r_inlen (rd (if staged then set_rd s2 (br_set_in (rd s2) (skipn (Z.to_nat read) (r_in b0)) (r_inlen b0 - Z.to_N read)) else s2)) <= r_inlen b0).
+    { destruct staged eqn:Est; sproj; [lia|]. unfold s1 in P5. exact P5. }
+    assert (Hl : r_len (rd (if staged then set_rd s2 (br_set_in (rd s2) (skipn (Z.to_nat read) (r_in b0)) (r_inlen b0 - Z.to_N read)) else s2)) = r_len (rd s2)).
+    { destruct staged; reflexivity. }
+    split; [exact Hin|]. rewrite Hl. split; [exact P3|]. split; [exact R2|].
+    assert (Hi : forall x, inputNil (if staged then set_rd s2 x else s2) = inputNil s2) by (intros; destruct staged; reflexivity).
+    assert (Ho : forall x, ov (if staged then set_rd s2 x else s2) = ov s2) by (intros; destruct staged; reflexivity).
+    assert (Hr : forall x, roffset (if staged then set_rd s2 x else s2) = roffset s2) by (intros; destruct staged; reflexivity).
+    rewrite Hi, Ho, Hr. split; [congruence|]. split; congruence.
 Qed.
